@@ -10,7 +10,8 @@
    [evs ts s]: from some amount of fuel on, the parser returns s on ts (the
    parser is a fuel-indexed function, so the result is unique). *)
 From V Require Import Base.Bytes Lang.Grammar Lang.Unparse Proofs.UnparseProofs
-  Lang.UnparseDecl Proofs.UnparseDeclProofs.
+  Lang.UnparseDecl Proofs.UnparseDeclProofs Lang.Program Proofs.ProgramProofs
+  Lang.Literals Proofs.LiteralsProofs.
 
 (* for every expression statement a - there is no side condition, every tree
    over the constructors is covered - parsing the tokens of unparse a yields a *)
@@ -75,6 +76,75 @@ Theorem C23_decl_old_buckets_refuted :
     exists d d', parse_decl (unparse_decl_old f6 d) = Some d' /\ d' <> d.
 Proof. intros f6 b H. eexists. exact (decl_old_loses_buckets f6 b H). Qed.
 
+(* ---- whole programs ----
+   program = block of statements: expression statements and assignments, metric
+   declarations, const pattern fragments, conditions with blocks (with and
+   without else), otherwise, decorator definitions and uses, next, stop, del
+   with and without expiry; nested to any depth.  Tokens include the newline
+   tokens the grammar depends on (only an expression statement consumes one).
+   [wf_block p]: the operand of every del is a postfix expression (the grammar
+   only accepts that, the checker only an indexed metric).
+   [evp ts p]: from some fuel on the program parser returns p on ts. *)
+Theorem C23_program_roundtrip :
+  forall p : program, wf_block p = true -> evp (unparse_prog p) p.
+Proof. exact program_roundtrip. Qed.
+
+Theorem C23_program_parse_functional : forall ts p q, evp ts p -> evp ts q -> p = q.
+Proof. exact evp_functional. Qed.
+
+(* an answer of the program parser at any fuel is its answer at every larger
+   fuel, so the fixed-fuel [parse_prog] evaluated by the correspondence check can
+   only answer with the program that was formatted *)
+Theorem C23_program_parse_stable : forall f ts p, pprog f ts = Some p -> evp ts p.
+Proof. exact pprog_stable. Qed.
+
+Theorem C23_program_parse_unparse_sound :
+  forall p q, wf_block p = true -> parse_prog (unparse_prog p) = Some q -> q = p.
+Proof. exact parse_prog_unparse_sound. Qed.
+
+(* formatting what the formatted program parses to gives the same tokens *)
+Theorem C23_program_idempotent :
+  forall p q, wf_block p = true -> evp (unparse_prog p) q -> unparse_prog q = unparse_prog p.
+Proof. exact program_idempotent. Qed.
+
+(* non-vacuity: a program with a declaration, a const, a decorator, nested
+   conditions with else and otherwise, del with expiry, next and stop *)
+Definition c23_example_program : program :=
+  BCons (SDecl (mk_decl true 0 [99%N] [[107%N]] 5 [] [100%N]))
+  (BCons (SConst [80%N] (Bin OPlus (Atom (ARegex [97%N])) (Id [81%N] ENil)))
+  (BCons (SDef [100%N] (BCons (SIf (Atom (ARegex [121%N])) (BCons SNext BNil)) BNil))
+  (BCons (SDeco [100%N]
+     (BCons (SIfElse (Bin OAnd (Atom (ARegex [120%N])) (Bin OGt (Bin OMul (Bin OPlus one two) three) one))
+               (BCons (SExprS (SAssign true (Id [99%N] ENil) (Bin OMinus one (Bin OMinus two three))))
+               (BCons (SDel (Id [103%N] (ECons (Atom (ACapref false [49%N])) ENil)) 1000) BNil))
+               (BCons (SOtherwise (BCons SStop BNil)) BNil))
+      BNil))
+   BNil))).
+
+Example C23_program_example :
+  wf_block c23_example_program = true /\
+  parse_prog (unparse_prog c23_example_program) = Some c23_example_program.
+Proof. split; vm_compute; reflexivity. Qed.
+
+(* ---- the text of string and pattern literals ----
+   q = 34 (double quote) for strings, exported names and quoted keys, q = 47
+   (slash) for patterns.  For every text the lexer can produce ([imgb]: no
+   newline, every backslash starts a pair whose second byte is neither q nor a
+   newline) reading back what the printer writes gives the text and stops at
+   the closing q. *)
+Theorem C23_literal_roundtrip :
+  forall (q : N) (s rest : bytes), q <> 92%N -> q <> 10%N -> imgb q s = true ->
+    unq q (esc q s ++ q :: rest) = Some (s, rest).
+Proof. exact unq_esc. Qed.
+
+(* before the repair strings were written without escaping *)
+Theorem C23_literal_unescaped_refuted :
+  exists s t rest, imgb 34 s = true /\ unq 34 (s ++ [34%N]) = Some (t, rest) /\ t <> s.
+Proof.
+  exists [97; 34; 98]%N, [97%N], [98; 34]%N.
+  destruct unq_unescaped_loses as (A & B). split; [exact A|]. split; [exact B|discriminate].
+Qed.
+
 (* non-vacuity, with the fixed fuel of [parse]: (1 + 2) * 3 and
    c = $x =~ /a/ && ~(1 - (2 - 3++)) *)
 Example C23_roundtrip_example :
@@ -90,6 +160,13 @@ Print Assumptions C23_parse_functional.
 Print Assumptions C23_parse_stable.
 Print Assumptions C23_parse_unparse_sound.
 Print Assumptions C23_idempotent.
+Print Assumptions C23_program_roundtrip.
+Print Assumptions C23_program_parse_functional.
+Print Assumptions C23_program_parse_stable.
+Print Assumptions C23_program_parse_unparse_sound.
+Print Assumptions C23_program_idempotent.
+Print Assumptions C23_literal_roundtrip.
+Print Assumptions C23_literal_unescaped_refuted.
 Print Assumptions C23_decl_roundtrip.
 Print Assumptions C23_decl_old_refuted.
 Print Assumptions C23_decl_old_limit_refuted.
